@@ -441,6 +441,9 @@ func (s *ReceiveStream) handleResetStreamFrame(frame *wire.ResetStreamFrame, now
 	s.mutex.Unlock()
 
 	if completed {
+		// Return the unread bytes to the connection-level flow controller,
+		// e.g. when the read side was cancelled before a RESET_STREAM_AT with a reliable size beyond the read position.
+		s.flowController.Abandon()
 		s.sender.onStreamCompleted(s.streamID)
 	}
 	return err
